@@ -650,6 +650,22 @@ def rule_r8(ctx) -> List[R.Inst]:
                     fills = True
                 if isinstance(x.test.ops[0], ast.In) and stores_(x.orelse) and not stores_(x.body):
                     fills = True
+    # column-wise form: {name: <default column> for name, (type, default) in <…>._props.items() if name not in <given>} joined to the
+    # frame side by side (concat(axis=1) / assign(**fill) / join)
+    for n in ast.walk(fn.node):
+        if isinstance(n, ast.DictComp) and len(n.generators) == 1 and "_props" in unparse(n.generators[0].iter) and \
+                any(isinstance(t, ast.Compare) and len(t.ops) == 1 and isinstance(t.ops[0], ast.NotIn) for t in n.generators[0].ifs):
+            holder = next((x.targets[0].id for x in ast.walk(fn.node) if isinstance(x, ast.Assign) and x.value is n and isinstance(x.targets[0], ast.Name)), None)
+            joined = False
+            for c in ast.walk(fn.node):
+                if isinstance(c, ast.Call) and call_name(c) == "concat" and any(k.arg == "axis" and unparse(k.value) == "1" for k in c.keywords) and \
+                        any((x is n) or (isinstance(x, ast.Name) and x.id == holder) for x in ast.walk(c)):
+                    joined = True
+                if isinstance(c, ast.Call) and call_name(c) in ("assign", "join") and \
+                        any((x is n) or (isinstance(x, ast.Name) and x.id == holder) for x in ast.walk(c)):
+                    joined = True
+            if joined:
+                fills = True
     # the fill must be able to replicate every declared default: a bare `df[col] = default` lets pandas treat a
     # list-valued default as a column of values (length mismatch / wrong cells) — only scalars broadcast
     seq_defaults = []
@@ -1004,6 +1020,15 @@ def rule_r13(ctx) -> List[R.Inst]:
                 dnames = {nm_[-1]}
     fills = [n for n in ast.walk(fn.node) if isinstance(n, ast.Assign) and isinstance(n.targets[0], ast.Subscript) and
              any(isinstance(x, ast.Name) and x.id in dnames for x in ast.walk(n.value))]
+    if not fills:
+        # column-wise fill: {name: <column built from the default> for name, (type, default) in <…>._props.items() if …}
+        for n in ast.walk(fn.node):
+            if isinstance(n, ast.DictComp) and len(n.generators) == 1 and "_props" in unparse(n.generators[0].iter):
+                tn = [x.id for x in ast.walk(n.generators[0].target) if isinstance(x, ast.Name)]
+                if tn and any(isinstance(x, ast.Name) and x.id == tn[-1] for x in ast.walk(n.value)):
+                    fake = ast.Assign(targets=[ast.Subscript(value=ast.Name(id="df", ctx=ast.Load()), slice=n.key, ctx=ast.Store())], value=n.value)
+                    ast.copy_location(fake, n)
+                    fills.append(fake)
     # a cast inside the fill loop applies to the filled column only: `df = df.astype(t)` re-types EVERY column to the dtype of the one
     # defaulted field (float offsets of a list whose defaulted field is an int are truncated)
     wide = [n for n in ast.walk(fn.node) if isinstance(n, ast.Assign) and len(n.targets) == 1 and isinstance(n.targets[0], ast.Name) and
